@@ -6,6 +6,8 @@ import os
 import sys
 import traceback
 
+import warnings
+warnings.filterwarnings("ignore")
 import common
 
 
